@@ -644,3 +644,240 @@ Proof.
       apply filter_In; split; assumption.
   - apply independent_before_mimic; assumption.
 Qed.
+
+(* ------------------------------------------------------------------ applying the change list; the result profile *)
+
+Lemma detach_form_id : forall e, id_of (detach_form e) = id_of e.
+Proof. intro e. unfold detach_form. destruct (_ && _); reflexivity. Qed.
+
+Lemma remove_first_here : forall (p : entry -> bool) l e K,
+  (forall x, In x l -> p x = false) -> p e = true -> remove_first p (l ++ e :: K) = Some (l ++ K).
+Proof.
+  induction l as [|y l IH]; intros e K Hl He; cbn [app remove_first].
+  - rewrite He. reflexivity.
+  - rewrite (Hl y (or_introl eq_refl)). rewrite IH; auto. intros x Hx. apply Hl. right. exact Hx.
+Qed.
+
+Lemma entry_eqb_refl : forall e, entry_eqb e e = true.
+Proof. intro e. apply entry_eqb_eq. reflexivity. Qed.
+
+Lemma unmount_part_snoc : forall reuse l e,
+  unmount_part reuse (l ++ [e]) =
+  (if id_mem (id_of e) reuse then (Keep, e) else (Unmount, detach_form e)) :: unmount_part reuse l.
+Proof. intros. unfold unmount_part. rewrite rev_app_distr. reflexivity. Qed.
+
+(* the Keep / Unmount part applies to the table step by step and leaves exactly the reused entries, in place *)
+Lemma apply_unmount_part : forall reuse l K rest, NoDup (map id_of l) ->
+  apply_changes (l ++ K) (unmount_part reuse l ++ rest) =
+  apply_changes (filter (fun e => id_mem (id_of e) reuse) l ++ K) rest.
+Proof.
+  intros reuse l. induction l as [|e l IH] using rev_ind; intros K rest ND; [reflexivity|].
+  rewrite unmount_part_snoc. rewrite map_app in ND. cbn [map] in ND.
+  assert (ND' : NoDup (map id_of l)) by (apply NoDup_remove_1 in ND; rewrite app_nil_r in ND; exact ND).
+  assert (Hne : forall x, In x l -> id_of x <> id_of e).
+  { intros x Hx E. apply NoDup_remove_2 in ND. rewrite app_nil_r in ND. apply ND. rewrite <- E. apply in_map. exact Hx. }
+  rewrite filter_app. cbn [filter]. rewrite <- !app_assoc. cbn [app apply_changes].
+  destruct (id_mem (id_of e) reuse) eqn:M.
+  - cbn [apply_change fst snd].
+    assert (existsb (entry_eqb e) (l ++ e :: K) = true) as ->.
+    { apply existsb_exists. exists e. split; [apply in_or_app; right; left; reflexivity | apply entry_eqb_refl]. }
+    rewrite (IH (e :: K) rest ND'). cbn [app]. reflexivity.
+  - cbn [apply_change fst snd].
+    rewrite remove_first_here.
+    + rewrite (IH K rest ND'). reflexivity.
+    + intros x Hx. destruct (entry_eqb (detach_form x) (detach_form e)) eqn:E; [|reflexivity].
+      apply entry_eqb_eq in E. exfalso. apply (Hne x Hx). rewrite <- (detach_form_id x), <- (detach_form_id e), E. reflexivity.
+    + apply entry_eqb_refl.
+Qed.
+
+Lemma apply_mounts : forall ms tbl, apply_changes tbl (map (fun e => (Mount, e)) ms) = Some (tbl ++ ms).
+Proof.
+  induction ms as [|m ms IH]; intro tbl; cbn [map apply_changes]; [rewrite app_nil_r; reflexivity|].
+  cbn [apply_change fst snd]. rewrite IH. rewrite <- app_assoc. reflexivity.
+Qed.
+
+Theorem apply_needed_changes : forall fs current desired,
+  let cur := map clean_entry current in
+  let des := isort less_origin (map clean_entry desired) in
+  let reuse := reuse_of current desired in
+  NoDup (map id_of cur) ->
+  apply_changes cur (needed_changes fs current desired) =
+  Some (filter (fun e => id_mem (id_of e) reuse) cur ++
+        mount_order fs (filter (fun e => negb (id_mem (id_of e) reuse)) des)).
+Proof.
+  intros fs current desired cur des reuse ND. unfold needed_changes. fold cur des reuse.
+  rewrite <- (app_nil_r cur) at 1. rewrite apply_unmount_part by exact ND. rewrite app_nil_r. apply apply_mounts.
+Qed.
+
+(* --- the mount list is a permutation of the not reused desired entries --- *)
+
+Lemma filter_partition_perm : forall {A} (p : A -> bool) l, Permutation l (filter p l ++ filter (fun x => negb (p x)) l).
+Proof.
+  intros A p l. induction l as [|x l IH]; [apply Permutation_refl|]. cbn [filter].
+  destruct (p x); cbn [negb app]; [apply perm_skip, IH|].
+  eapply Permutation_trans; [apply perm_skip, IH | apply Permutation_middle].
+Qed.
+
+Lemma filter_disjoint_or : forall {A} (p q : A -> bool) l, (forall x, In x l -> p x = true -> q x = false) ->
+  Permutation (filter p l ++ filter q l) (filter (fun x => p x || q x) l).
+Proof.
+  intros A p q l. induction l as [|x l IH]; intros H; [apply Permutation_refl|]. cbn [filter].
+  assert (IH' := IH (fun y Hy => H y (or_intror Hy))).
+  destruct (p x) eqn:P.
+  - rewrite (H x (or_introl eq_refl) P). cbn [orb app]. apply perm_skip, IH'.
+  - cbn [orb]. destruct (q x); [|exact IH'].
+    eapply Permutation_trans; [apply Permutation_sym, Permutation_middle | apply perm_skip, IH'].
+Qed.
+
+Lemma filter_ext_in' : forall {A} (p q : A -> bool) l, (forall x, In x l -> p x = q x) -> filter p l = filter q l.
+Proof.
+  intros A p q l. induction l as [|x l IH]; intros H; [reflexivity|]. cbn [filter].
+  rewrite (H x (or_introl eq_refl)), IH; [reflexivity|]. intros y Hy. apply H. right. exact Hy.
+Qed.
+
+Lemma group_concat_perm : forall (key : entry -> bytes) l keys, NoDup keys ->
+  Permutation (concat (map (fun d => filter (fun e => beq (key e) d) l) keys)) (filter (fun e => mem (key e) keys) l).
+Proof.
+  intros key l keys. induction keys as [|k ks IH]; intros ND.
+  - cbn. induction l; [constructor | exact IHl].
+  - inversion ND as [|? ? Hk ND']; subst. cbn [map concat].
+    eapply Permutation_trans; [apply Permutation_app_head, (IH ND')|].
+    eapply Permutation_trans; [apply filter_disjoint_or|].
+    + intros x _ E. apply beq_eq in E. destruct (mem (key x) ks) eqn:M; [|reflexivity].
+      apply mem_In in M. rewrite E in M. contradiction.
+    + apply Permutation_refl.
+Qed.
+
+Lemma nodup_b_NoDup : forall l, NoDup (nodup_b l).
+Proof.
+  induction l as [|x l IH]; [constructor|]. cbn [nodup_b]. destruct (mem x l) eqn:M; [exact IH|].
+  constructor; [|exact IH]. intro H. apply (proj1 (nodup_b_In l x)) in H. apply (proj2 (mem_In x l)) in H. congruence.
+Qed.
+
+Lemma filter_all : forall {A} (p : A -> bool) l, (forall x, In x l -> p x = true) -> filter p l = l.
+Proof.
+  intros A p l. induction l as [|x l IH]; intros H; [reflexivity|]. cbn [filter].
+  rewrite (H x (or_introl eq_refl)), IH; [reflexivity|]. intros y Hy. apply H. right. exact Hy.
+Qed.
+
+Lemma concat_perm : forall {A} (f g : bytes -> list A) keys, (forall d, Permutation (f d) (g d)) ->
+  Permutation (concat (map f keys)) (concat (map g keys)).
+Proof.
+  intros A f g keys H. induction keys as [|k ks IH]; [constructor|]. cbn [map concat].
+  apply Permutation_app; [apply H | exact IH].
+Qed.
+
+Theorem mount_order_perm : forall fs dnr, Permutation (mount_order fs dnr) dnr.
+Proof.
+  intros fs dnr. unfold mount_order.
+  set (ind := filter (fun e => is_overname e || exists_as fs e) dnr).
+  set (mimics := filter (fun e => negb (is_overname e) && negb (exists_as fs e)) dnr).
+  set (mdirs := isort blt (nodup_b (map (mimic_dir fs) mimics))).
+  eapply Permutation_trans; [|apply Permutation_sym, (filter_partition_perm (fun e => is_overname e || exists_as fs e))].
+  apply Permutation_app; [apply isort_perm|].
+  assert (filter (fun x => negb (is_overname x || exists_as fs x)) dnr = mimics) as ->.
+  { apply filter_ext_in'. intros x _. apply negb_orb. }
+  eapply Permutation_trans; [apply concat_perm; intro d; apply isort_perm|].
+  eapply Permutation_trans; [apply group_concat_perm|].
+  - apply (Permutation_NoDup (l := nodup_b (map (mimic_dir fs) mimics))); [apply Permutation_sym, isort_perm | apply nodup_b_NoDup].
+  - rewrite filter_all; [apply Permutation_refl|]. intros x Hx. apply mem_In. apply isort_In, nodup_b_In, in_map. exact Hx.
+Qed.
+
+(* --- the result profile --- *)
+
+Lemma existsb_entry_In : forall x l, existsb (entry_eqb x) l = true <-> In x l.
+Proof.
+  intros x l. rewrite existsb_exists. split.
+  - intros (y & Hy & E). apply entry_eqb_eq in E. subst. exact Hy.
+  - intro H. exists x. split; [exact H | apply entry_eqb_refl].
+Qed.
+
+Lemma NoDup_of_map : forall {A B} (f : A -> B) l, NoDup (map f l) -> NoDup l.
+Proof.
+  intros A B f l. induction l as [|x l IH]; intros H; [constructor|]. cbn [map] in H. inversion H; subst.
+  constructor; [|apply IH; assumption]. intro Hx. apply H2. apply in_map. exact Hx.
+Qed.
+
+Lemma NoDup_filter' : forall {A} (p : A -> bool) l, NoDup l -> NoDup (filter p l).
+Proof.
+  intros A p l. induction l as [|x l IH]; intros H; [constructor|]. inversion H; subst. cbn [filter].
+  destruct (p x); [|apply IH; assumption]. constructor; [|apply IH; assumption].
+  intro Hx. apply filter_In in Hx as [Hx _]. contradiction.
+Qed.
+
+(* Applying the computed changes to the current mount table succeeds, and the table afterwards is, as a multiset, the
+   desired entries plus kept entries of the current profile that are not desired, each of which is a helper whose
+   needed-by entry is still desired (or the rootfs). Hypotheses: distinct desired mount points, distinct (dir, type) in
+   the current profile, and no desired entry on the (dir, type) of a different helper of the current profile. *)
+Theorem result_profile : forall fs current desired,
+  let cur := map clean_entry current in
+  let des := isort less_origin (map clean_entry desired) in
+  let ids := map x_entry_id des in
+  NoDup (map e_dir des) -> NoDup (map id_of cur) ->
+  (forall d c, In d des -> In c cur -> is_helper ids c = true -> id_of c = id_of d -> c = d) ->
+  exists tbl extra,
+    apply_changes cur (needed_changes fs current desired) = Some tbl /\
+    Permutation tbl (des ++ extra) /\
+    (forall x, In x extra -> In x cur /\ is_helper ids x = true /\ In (Keep, x) (needed_changes fs current desired)).
+Proof.
+  intros fs current desired cur des ids H1 H2 H3.
+  set (reuse := reuse_of current desired).
+  set (K := filter (fun e => id_mem (id_of e) reuse) cur).
+  set (dnr := filter (fun e => negb (id_mem (id_of e) reuse)) des).
+  set (extra := filter (fun c => negb (existsb (entry_eqb c) des)) K).
+  exists (K ++ mount_order fs dnr), extra. split; [apply apply_needed_changes; exact H2|].
+  assert (Kkeep : forall x, In x K -> In (Keep, x) (needed_changes fs current desired)).
+  { intros x Hx. apply filter_In in Hx as [Hx M]. unfold needed_changes. apply in_or_app. left.
+    apply keep_in_part. split; [exact Hx | exact M]. }
+  split.
+  - (* K = (K in des) + extra ; (K in des) = reused desired ; mounts = not reused desired *)
+    eapply Permutation_trans; [apply Permutation_app; [apply (filter_partition_perm (fun c => existsb (entry_eqb c) des)) | apply mount_order_perm]|].
+    fold extra.
+    assert (P : Permutation (filter (fun c => existsb (entry_eqb c) des) K) (filter (fun e => id_mem (id_of e) reuse) des)).
+    { apply NoDup_Permutation.
+      - apply NoDup_filter', NoDup_filter', (NoDup_of_map id_of). exact H2.
+      - apply NoDup_filter', (NoDup_of_map e_dir). exact H1.
+      - intro x. rewrite !filter_In. split.
+        + intros [Hk Hd]. apply existsb_entry_In in Hd. apply filter_In in Hk as [_ M]. auto.
+        + intros [Hd M]. split; [|apply existsb_entry_In; exact Hd].
+          destruct (desired_present fs current desired H1 x Hd) as [Hm | Hk].
+          * intros c Hc Hh E. apply (H3 x c); assumption.
+          * exfalso. unfold needed_changes in Hm. apply in_app_or in Hm as [Hm | Hm]; [eapply mount_not_in_part; exact Hm|].
+            apply in_map_iff in Hm as (e & E & He). inversion E; subst e. apply mount_order_In in He.
+            apply filter_In in He as [_ He]. fold reuse in He. rewrite M in He. discriminate.
+          * unfold needed_changes in Hk. apply in_app_or in Hk as [Hk | Hk]; [|exfalso; eapply keep_not_in_mounts; exact Hk].
+            apply keep_in_part in Hk as [Hc M']. apply filter_In. split; [exact Hc | exact M]. }
+    eapply Permutation_trans; [apply Permutation_app_tail, Permutation_app_tail, P|].
+    eapply Permutation_trans; [|apply Permutation_app_tail, Permutation_sym, (filter_partition_perm (fun e => id_mem (id_of e) reuse) des)].
+    fold dnr. rewrite <- !app_assoc. apply Permutation_app_head. apply Permutation_app_comm.
+  - intros x Hx. apply filter_In in Hx as [Hk Hnd]. specialize (Kkeep x Hk).
+    destruct (kept_are_wanted fs current desired H2 x Kkeep) as [Hc [Hd | Hh]]; [|auto].
+    apply existsb_entry_In in Hd. fold des in Hd. rewrite Hd in Hnd. discriminate.
+Qed.
+
+(* the hypothesis about helpers is needed: a desired tmpfs on the directory of a still-needed writable mimic is
+   neither mounted nor kept *)
+From Coq Require Import String.
+
+Lemma result_profile_shadowed_refuted :
+  exists fs current desired d,
+    NoDup (map e_dir (isort less_origin (map clean_entry desired))) /\
+    NoDup (map id_of (map clean_entry current)) /\
+    In d (isort less_origin (map clean_entry desired)) /\
+    ~ In (Mount, d) (needed_changes fs current desired) /\ ~ In (Keep, d) (needed_changes fs current desired).
+Proof.
+  set (mimic := mkEntry (bs "tmpfs"%string) (bs "/a"%string) (bs "tmpfs"%string) [bs "x-snapd.synthetic"%string; bs "x-snapd.needed-by=/a/b"%string; bs "mode=0755"%string] 0 0).
+  set (ab := mkEntry (bs "/s/src"%string) (bs "/a/b"%string) (bs "none"%string) [bs "bind"%string; bs "x-snapd.origin=layout"%string] 0 0).
+  set (ta := mkEntry (bs "tmpfs"%string) (bs "/a"%string) (bs "tmpfs"%string) [bs "mode=0755"%string; bs "x-snapd.origin=layout"%string] 0 0).
+  exists (mkFs [bs "/"%string; bs "/a"%string; bs "/a/b"%string] [] []), [mimic; ab], [ta; ab], ta.
+  assert (E : needed_changes (mkFs [bs "/"%string; bs "/a"%string; bs "/a/b"%string] [] []) [mimic; ab] [ta; ab] = [(Keep, ab); (Keep, mimic)]) by (vm_compute; reflexivity).
+  rewrite E.
+  assert (D : isort less_origin (map clean_entry [ta; ab]) = [ta; ab]) by (vm_compute; reflexivity).
+  rewrite D.
+  repeat split.
+  - cbn. repeat constructor; cbn; intuition discriminate.
+  - cbn. repeat constructor; cbn; intuition discriminate.
+  - left. reflexivity.
+  - cbn. intuition discriminate.
+  - cbn. intros [H | [H | []]]; inversion H.
+Qed.
